@@ -198,7 +198,19 @@ pub fn run(sim: &Sim, _idx: u64) {
             sim.probe("message-and-trailers-in-one-chunk");
         }
     }
-    let peer = WebPeer { sim: sim.clone(), seen: Arc::new(Mutex::new(WebSeen::default())), body: chunks.into_iter().map(Ev::Data).collect(), pending: sim.pick(&[0u64, 0, 30]) };
+    let mut body_evs: Vec<Ev> = chunks.into_iter().map(Ev::Data).collect();
+    // a defective body may still be followed by HTTP trailers of the transport (a proxy's, say):
+    // they do not make a truncated or malformed grpc-web body whole
+    if defect.as_ref().map(|d| !d.contains("not judged")).unwrap_or(false) && sim.chance(1, 3) {
+        let mut t = HeaderMap::new();
+        t.insert("x-proxy-trailer", "1".parse().unwrap());
+        if sim.chance(1, 2) {
+            t.insert("grpc-status", "0".parse().unwrap());
+        }
+        body_evs.push(Ev::Trailers(t));
+        sim.fault("http-trailers-after-defective-body");
+    }
+    let peer = WebPeer { sim: sim.clone(), seen: Arc::new(Mutex::new(WebSeen::default())), body: body_evs, pending: sim.pick(&[0u64, 0, 30]) };
     let seen = peer.seen.clone();
     let mut svc = tonic_web::GrpcWebClientService::new(peer);
     sim.nontrivial();
